@@ -270,3 +270,15 @@ package tan
 //@ requires !gUnsynced && !gWriteFailed && !gReadFailed && !gDirDirty && gDirHandles[obj(l.bsDir)]
 //@ modifies gUnsynced, gWriteFailed, gDirDirty, gDataSynced, held(l.mu)
 //@ ensures result == nil ==> !gUnsynced
+
+// ---------------------------------------------------------------- which log files may be deleted (C09)
+// a log file referenced by any index range, by the snapshot record or by the hard-state record
+// of a replica is in use and must not be removed by compaction
+//@ func (n *nodeIndex) fileInUse [C09]
+// the ranges of a replica's index are ordered by log file (files are written in sequence):
+// fnum(i) is the file of range i, non-decreasing in i
+//@ requires forall i int :: 0 <= i && i < len(n.entries.entries) ==> n.entries.entries[i].fileNum == uf("fnum", i)
+//@ requires forall i int, j int :: 0 <= i && i < j ==> uf("fnum", i) <= uf("fnum", j)
+//@ ensures n.snapshot.fileNum == fn || n.state.fileNum == fn ==> result
+//@ ensures forall i int :: 0 <= i && i < len(n.entries.entries) && n.entries.entries[i].fileNum == fn ==> result
+//@ loop 1 invariant forall i int :: 0 <= i && i <= $i ==> n.entries.entries[i].fileNum < fn
